@@ -181,3 +181,18 @@ func init() {
 		exclude: map[string]bool{"printf": true},
 	})
 }
+
+func init() {
+	g2lUnits = append(g2lUnits, &g2lUnit{
+		out: "FnDirhash", ns: "Dirhash", pkgDir: "sumdb/dirhash",
+		imports:     []string{"ModVerif.Basic.GoRtSort"},
+		fns:         []string{"Hash1"},
+		accumTypes:  map[string]bool{"hash.Hash": true},
+		ifaces:      map[string]string{"ReadCloser": "Bytes"},
+		ignoreCalls: map[string]bool{"Close": true},
+		mutCalls:    map[string]string{"sort.Strings": "sortStrings"},
+		stdCalls:    map[string]stdFn{"sha256.New": {"emptyBytes", false}},
+		absCalls:    map[string]string{"h.Sum": "shaSum:recv", "hf.Sum": "shaSum:recv", "base64.StdEncoding.EncodeToString": "b64enc"},
+		absSigs:     map[string]string{"shaSum": "Bytes → Bytes → Bytes", "b64enc": "Bytes → Bytes"},
+	})
+}
